@@ -22,6 +22,7 @@ fn main() {
         "sysw" => h::sysw::main(mode, rest),
         "env" => h::env::main(mode, rest),
         "rpc" => h::rpc::main(mode, rest),
+        "authhq" => h::authhq::main(mode, rest),
         _ => {
             eprintln!("unknown component {comp}");
             std::process::exit(2);
